@@ -845,6 +845,11 @@ func Compare(refTree *Tree, compTrees <-chan Trees, tips, comparetreeidentical b
 									common++
 								}
 							}
+							// Bipartitions of the reference tree that are absent
+							// from the compared tree also make the trees different
+							if sametree && total != common {
+								sametree = false
+							}
 						}
 					}
 				}
